@@ -175,7 +175,9 @@ def correspondence(ctx, model_ok=True):
             # programs and the generated programs there, and every sweep in the release build
             todo = [p for p in plist if not p[0].startswith(("natives:", "natives3:", "binop:"))]
         todo = todo + [(n, s, {}) for n, s, bs in known if bname in bs]
-        res, _ = progs.run_programs(exe, todo, mode, steps_budget=400000000, tag=bname[0])
+        # one program per process and a generous wall-clock limit: a native sweep performs ~190k operations and, in the checked build
+        # (a collection at every allocation), takes minutes
+        res, _ = progs.run_programs(exe, todo, mode, steps_budget=400000000, tag=bname[0], timeout_per_batch=5400, batch=1)
         n_runs += len(todo)
         for (name, src, mods), r in zip(todo, res):
             bad = outcome_ok(r)
